@@ -114,6 +114,8 @@ def nonneg(e: ast.AST, known: frozenset[str], ranges: set[str]) -> bool:
         return True
     if isinstance(e, ast.Subscript) and isinstance(e.value, ast.Call) and (dotted(e.value.func) or '') == 'range':
         return True   # range(n)[i] raises for an out-of-range i and yields a value in [0, n)
+    if isinstance(e, ast.Subscript) and isinstance(e.value, ast.Name) and e.value.id in ranges and not isinstance(e.slice, ast.Slice):
+        return True   # an element of a normalised range, whichever way it is picked
     if isinstance(e, ast.BinOp) and isinstance(e.op, (ast.Add, ast.Mult)):
         return nonneg(e.left, known, ranges) and nonneg(e.right, known, ranges)
     if isinstance(e, ast.IfExp):
